@@ -43,6 +43,33 @@ class _Sleep:
         yield ('sleep', self.d)
 
 
+class _TimeModule:
+    """stand-in for the `time` module inside rate_limiter: monotonic() is the reading supplied by the harness; the
+    OTHER clocks (time(), perf_counter()) are unrelated to it - every reading is a fresh arbitrary non-negative real
+    (a wall clock reads ~1.8e9 while monotonic() reads seconds since boot); anything else is a harness error that
+    names the missing function."""
+
+    def __init__(self, env):
+        self._env = env
+        self._n = 0
+
+    def monotonic(self):
+        return self._env.now
+
+    def _other_clock(self, name):
+        self._n += 1
+        return symex.ctx().fresh_real(f'{name}_reading{self._n}', lo=0)
+
+    def time(self):
+        return self._other_clock('wall_clock')
+
+    def perf_counter(self):
+        return self._other_clock('perf_counter')
+
+    def __getattr__(self, name):
+        raise symex.HarnessError(f'time.{name} is not modelled by the C20 environment')
+
+
 class Env:
     """installs the environment stubs into the module globals of rate_limiter
     (nothing in /repo is edited): `time.monotonic` -> readings supplied by the
@@ -58,7 +85,7 @@ class Env:
     def __enter__(self):
         g = rl.__dict__
         self.saved = {k: g.get(k, _MISSING) for k in ('time', 'asyncio', 'int')}
-        g['time'] = types.SimpleNamespace(monotonic=lambda: self.now)
+        g['time'] = _TimeModule(self)
         g['asyncio'] = types.SimpleNamespace(sleep=lambda d: _Sleep(d))
         self.saved['max'] = g.get('max', _MISSING)
         if self.symbolic:
@@ -736,6 +763,7 @@ META = {
     'stubs': ['rate_limiter.time.monotonic -> harness-supplied non-decreasing symbolic real',
               'rate_limiter.asyncio.sleep -> bare suspension point (duration recorded)',
               'rate_limiter.int -> truncation toward zero on symbolic reals',
+              'time.time() / time.perf_counter() inside rate_limiter -> a fresh arbitrary non-negative real per reading (unrelated to monotonic())',
               'Network: real constructor (Settings with credentials only, upnp off, real EventBus); never started or connected; peer_connections replaced by the harness connections'],
     'data_variables': ['limit_kbps in 1..10000 (Int)', 'bucket in 0..limit (Int)', 'last_refill >= 0 (Real)',
                        'every clock reading (Real, non-decreasing)', 'new limit 0..10000 (Int)'],
